@@ -256,7 +256,13 @@ def _accounting_cells(ctx, cls, f, name):
     # the running counter / sticky flag of this class: attributes the method both reads and writes
     written = {norm.text(t_) for st_ in walk_no_defs(f.node) if isinstance(st_, (ast.Assign, ast.AugAssign)) for t_ in (st_.targets if isinstance(st_, ast.Assign) else [st_.target])
                if is_self_attr(t_)}
-    ints = sorted(w for w in written if any(isinstance(st_, ast.AugAssign) and norm.text(st_.target) == w for st_ in walk_no_defs(f.node)))
+    # ... told apart by how the per-message state is initialised when a message starts (counter = 0, flag = False); without such an
+    # initialiser, by the accumulation idiom
+    start = cls.methods.get("start_decompress_message")
+    init0 = {norm.text(st_.targets[0]): st_.value.value for st_ in (walk_no_defs(start.node) if start is not None else ())
+             if isinstance(st_, ast.Assign) and len(st_.targets) == 1 and is_self_attr(st_.targets[0]) and isinstance(st_.value, ast.Constant)}
+    ints = sorted(w for w in written if (w in init0 and type(init0[w]) is int) or
+                  (w not in init0 and any(isinstance(st_, ast.AugAssign) and norm.text(st_.target) == w for st_ in walk_no_defs(f.node))))
     flags = sorted(written - set(ints))
     if not ints and not flags:
         return  # no per-message accounting in this method: the term rules below decide (and report) what it does with the bound
